@@ -70,7 +70,8 @@ def apply_breach(spec, b):
     frames = [j for j, op in enumerate(ops) if op['t'] == 'frame']
     if k == 'name':
         named = [j for j, op in enumerate(ops) if op['t'] != 'nfdata']
-        ops[named[sel % len(named)]]['name'] = text
+        j = named[sel % len(named)]
+        ops[j]['name'] = f"{text}{j}"       # (unique: two equal channel names in one frame are not supported)
     elif k == 'name-empty':
         ops.append({'t': 'comment', 'name': '', 'attrs': {}})
     elif k == 'sul-id':
